@@ -623,7 +623,7 @@ def run(ctx: core.Ctx) -> None:
     ctx.coverage_extra['scenarios'] = len(shards)
     ctx.coverage_extra['traces_validated_against_impl'] = ctx.acc.counters.get('strace_kill_points', 0)
     ctx.coverage_extra['crash_model'] = 'process kill: directory contents at every operation boundary; power loss without fsync is outside the property'
-    ctx.assumptions.append('file-system operations are intercepted at io.open / os.mkdir / os.replace / os.unlink and on the returned file '
+    ctx.assumptions.append('file-system operations are intercepted at io.open / os.mkdir / os.replace / os.unlink (and os.rename / os.remove / os.open / os.fsync, unused by the current writer) and on the returned file '
                            'object (write, seek, flush, close); an operation the writer performed through another route would be unseen')
     ctx.rule = (f'{len(shards)} scenarios: bytes/text writers with bodies of 0-3 chunks from (0, 10, 8193, 100096 bytes), destination '
                 f'previously present/absent, missing parent directories, a stale tmp_1, a read-only destination file, a writer object used twice, a cycle entered and abandoned before the same writer completes another, the body raising '
